@@ -170,6 +170,8 @@ fn c11_arc_dependence_classes() {
     oblige!("C11.dep.inspect_sees_last_modification", act == Action::Inspect || hit(&st, Action::Inspect));
     // a decrement / get_mut depends on earlier decrements
     oblige!("C11.dep.dec_sees_last_dec", act != Action::RefDec || hit(&st, Action::RefDec));
+    // ... and on earlier inspections of the count (strong_count observes the decrement)
+    oblige!("C11.dep.dec_sees_last_inspect", act != Action::Inspect || hit(&st, Action::RefDec));
     // an increment depends on earlier inspections
     oblige!("C11.dep.inc_sees_last_inspect", act != Action::Inspect || hit(&st, Action::RefInc));
     reach!("c11_arc_dependence_classes");
